@@ -7,12 +7,12 @@ import (
 	"unsafe"
 )
 
-func raceOff()                 { runtime.RaceDisable() }
-func raceOn()                  { runtime.RaceEnable() }
-func raceAcquire(m *Mutex)     { runtime.RaceAcquire(unsafe.Pointer(m)) }
-func raceRelease(m *Mutex)     { runtime.RaceRelease(unsafe.Pointer(m)) }
-func raceAcquireP(m *RWMutex)  { runtime.RaceAcquire(unsafe.Pointer(m)) }
-func raceReleaseP(m *RWMutex)  { runtime.RaceRelease(unsafe.Pointer(m)) }
+func raceOff()                { runtime.RaceDisable() }
+func raceOn()                 { runtime.RaceEnable() }
+func raceAcquire(m *Mutex)    { runtime.RaceAcquire(unsafe.Pointer(m)) }
+func raceRelease(m *Mutex)    { runtime.RaceRelease(unsafe.Pointer(m)) }
+func raceAcquireP(m *RWMutex) { runtime.RaceAcquire(unsafe.Pointer(m)) }
+func raceReleaseP(m *RWMutex) { runtime.RaceRelease(unsafe.Pointer(m)) }
 
 // RaceBuild reports whether the binary was built with -race.
 const RaceBuild = true
